@@ -38,10 +38,11 @@ Definition Bytes (prefix b : list byte) : list byte :=
   | _, _ => join ([] :: split_after b) prefix
   end.
 
-Definition last_is_lf (b : list byte) : bool :=
-  match rev b with
-  | c :: _ => N.eqb c LF
+(* joined[len(joined)-1] == '\n' (read from the front: the extracted model must stay linear on long chunks) *)
+Fixpoint last_is_lf (b : list byte) : bool :=
+  match b with
   | [] => false
+  | c :: b' => match b' with [] => N.eqb c LF | _ => last_is_lf b' end
   end.
 
 (* actualWrittenSize(underlay, prefix int, lines [][]byte) int, on Go ints (Z).
